@@ -10,6 +10,8 @@ import (
 	"regexp"
 	"sort"
 	"strings"
+	"sync"
+	"time"
 
 	"github.com/honeytrap/honeytrap/event"
 	"verif/harness/hx"
@@ -236,7 +238,20 @@ type BusInput struct {
 	Filters []Flt  `json:"filters"`
 	Token   string `json:"token"` // "" = server started without the token option
 	Events  []Ev   `json:"events"`
-	Alone   string `json:"alone"` // channel observed a second time under the restricted configuration
+	Alone   string `json:"alone"`              // channel observed a second time under the restricted configuration
+	Slow    string `json:"slow,omitempty"`     // capture channel that sleeps DelayUS microseconds per delivery
+	DelayUS int    `json:"delay_us,omitempty"` // (concurrent-sender cases)
+}
+
+// ConcInput: K senders, each a goroutine sending its own stream on the bus of one running
+// server, all released at the same moment; event ids are unique over all streams.
+type ConcInput struct {
+	Cfg     BusInput `json:"cfg"` // Events unused
+	Streams [][]Ev   `json:"streams"`
+}
+
+type ConcObs struct {
+	Chans map[string][]SeenObs `json:"channels"` // per capture channel, arrival order
 }
 
 type SeenObs struct {
@@ -313,6 +328,9 @@ func mkToml(in BusInput) string {
 			sb.WriteString("type=\"verif-cap6\"\n")
 		case "unknown-type":
 			sb.WriteString("type=\"verif-no-such-channel-type\"\n")
+		}
+		if d.Name == in.Slow && in.DelayUS > 0 {
+			fmt.Fprintf(&sb, "delay=%d\n", in.DelayUS)
 		}
 		fmt.Fprintf(&sb, "name=%s\n\n", hx.TomlStr(d.Name))
 	}
@@ -562,6 +580,170 @@ func corpus() []BusInput {
 	}
 }
 
+// runConc starts the server and lets every stream be sent by its own goroutine.
+func runConc(in ConcInput, scratch string) (ConcObs, string) {
+	ob := ConcObs{Chans: map[string][]SeenObs{}}
+	for _, f := range in.Cfg.Filters {
+		for _, x := range append(exprs(f.Svcs), exprs(f.Cats)...) {
+			if _, err := regexp.Compile(x); err != nil {
+				hx.Fatal("generated expression %q does not compile: %v", x, err)
+			}
+		}
+	}
+	l, err := start(mkToml(in.Cfg), scratch, in.Cfg.Token)
+	if err != nil {
+		hx.Fatal("server start: %v", err)
+	}
+	defer l.stop()
+	if !l.isStarted() {
+		return ob, "server returned before starting the listener"
+	}
+	if l.bus == nil {
+		return ob, "the listener was not handed the event bus"
+	}
+	var wg sync.WaitGroup
+	var cmu sync.Mutex
+	crash := ""
+	release := make(chan struct{})
+	for j := range in.Streams {
+		evs := make([]event.Event, len(in.Streams[j]))
+		for i, e := range in.Streams[j] {
+			evs[i] = mkEvent(e)
+		}
+		wg.Add(1)
+		go func(j int, evs []event.Event) {
+			defer wg.Done()
+			defer func() {
+				if r := recover(); r != nil {
+					cmu.Lock()
+					if crash == "" {
+						crash = fmt.Sprintf("panic in sender %d", j)
+					}
+					cmu.Unlock()
+				}
+			}()
+			<-release
+			for _, ev := range evs {
+				l.bus.Send(ev)
+			}
+		}(j, evs)
+	}
+	close(release)
+	done := make(chan struct{})
+	go func() { wg.Wait(); close(done) }()
+	select {
+	case <-done:
+	case <-time.After(30 * time.Second):
+		return ob, "concurrent senders did not finish within 30 s"
+	}
+	if crash != "" {
+		return ob, crash
+	}
+	for _, n := range okNames(in.Cfg) {
+		ob.Chans[n] = []SeenObs{}
+	}
+	for _, s := range l.snapshot() {
+		if _, ok := ob.Chans[s.Chan]; !ok {
+			return ob, fmt.Sprintf("delivery to a channel %q that is not a configured capture channel", s.Chan)
+		}
+		ob.Chans[s.Chan] = append(ob.Chans[s.Chan], SeenObs{ID: s.ID, Tok: s.Tok})
+	}
+	return ob, ""
+}
+
+// genConc: a generated configuration whose first filter sends everything to the slow
+// channel (so that Sends certainly overlap), K = 2..8 senders with 1..5 events each.
+func genConc(r *hx.Rand, dist map[string]int) ConcInput {
+	cfg := genBus(r, map[string]int{})
+	cfg.Events, cfg.Alone = nil, ""
+	if len(okNames(cfg)) == 0 {
+		cfg.Defs = []Def{{"c1", "ok"}, {"c2", "ok"}}
+	}
+	ok := okNames(cfg)
+	cfg.Slow = ok[r.Intn(len(ok))]
+	cfg.DelayUS = r.Range(1000, 2000)
+	all := Flt{Channels: []string{cfg.Slow}}
+	if r.Chance(1, 3) { // the slow channel is subscribed last instead of first
+		cfg.Filters = append(cfg.Filters, all)
+	} else {
+		cfg.Filters = append([]Flt{all}, cfg.Filters...)
+	}
+	if len(cfg.Filters) > 4 {
+		cfg.Filters = cfg.Filters[:4]
+		cfg.Filters[3] = all
+	}
+	k := r.Range(2, 8)
+	dist[fmt.Sprintf("conc:senders=%d", k)]++
+	in := ConcInput{Cfg: cfg}
+	scratchDist := map[string]int{}
+	for j := 0; j < k; j++ {
+		var st []Ev
+		for i, n := 0, r.Range(1, 5); i < n; i++ {
+			st = append(st, Ev{ID: 100*(j+1) + i, Cat: genFV(r, scratchDist, "category"), Svc: genFV(r, scratchDist, "service"), Tok: FV{Kind: "missing"}})
+		}
+		in.Streams = append(in.Streams, st)
+	}
+	return in
+}
+
+func concCorpus() []ConcInput {
+	defs := []Def{{"c1", "ok"}, {"c2", "ok"}, {"c3", "ok"}}
+	mk := func(j, n int, cat string) []Ev {
+		var st []Ev
+		for i := 0; i < n; i++ {
+			st = append(st, Ev{ID: 100*(j+1) + i, Cat: FV{Kind: "str", S: cat}, Svc: FV{Kind: "str", S: cat}, Tok: FV{Kind: "missing"}})
+		}
+		return st
+	}
+	return []ConcInput{
+		{Cfg: BusInput{Defs: defs, Token: "9m4e2mr0ui3e8a215n4g", Slow: "c1", DelayUS: 2000, Filters: []Flt{
+			{Channels: []string{"c1"}},
+			{Channels: []string{"c2"}, HasCats: true, Cats: []*Re{seq(bolR, lit("ssh"), eolR)}},
+			{Channels: []string{"c3", "c2"}, HasSvcs: true, Svcs: []*Re{lit("telnet")}},
+		}}, Streams: [][]Ev{mk(0, 4, "ssh"), mk(1, 4, "telnet"), mk(2, 3, "ssh"), mk(3, 3, "smtp")}},
+		{Cfg: BusInput{Defs: defs, Token: "", Slow: "c3", DelayUS: 1000, Filters: []Flt{
+			{Channels: []string{"c1", "c2"}},
+			{Channels: []string{"c3"}},
+		}}, Streams: [][]Ev{mk(0, 5, "ssh"), mk(1, 5, "ssh")}},
+	}
+}
+
+func coqCfg(in BusInput) string {
+	var ds, fs []string
+	for _, d := range in.Defs {
+		ds = append(ds, fmt.Sprintf("(mkCd %s %s)", hx.CoqStr(d.Name), hx.CoqBool(d.Kind == "ok")))
+	}
+	for _, f := range in.Filters {
+		fs = append(fs, fmt.Sprintf("(mkFlt %s %s %s)", coqStrs(f.Channels), coqRes(f.Svcs), coqRes(f.Cats)))
+	}
+	return fmt.Sprintf("(mkCfg %s %s %s)", hx.CoqList(ds, "chandef"), hx.CoqList(fs, "flt"), hx.CoqStr(in.Token))
+}
+
+func coqEvs(evs []Ev) string {
+	var es []string
+	for _, e := range evs {
+		es = append(es, fmt.Sprintf("(mkEv %s %s %s %s)", hx.CoqN(uint64(e.ID)), coqFV(e.Cat), coqFV(e.Svc), coqFV(e.Tok)))
+	}
+	return hx.CoqList(es, "event")
+}
+
+func coqConc(id int, in ConcInput, ob ConcObs) string {
+	var ss, os_ []string
+	for _, st := range in.Streams {
+		ss = append(ss, coqEvs(st))
+	}
+	var names []string
+	for n := range ob.Chans {
+		names = append(names, n)
+	}
+	sort.Strings(names)
+	for _, n := range names {
+		os_ = append(os_, fmt.Sprintf("(%s, %s)", hx.CoqStr(n), coqSeen(ob.Chans[n])))
+	}
+	return fmt.Sprintf("CC (mkCCase %s %s %s %s)", hx.CoqN(uint64(id)), coqCfg(in.Cfg),
+		hx.CoqList(ss, "(list event)"), hx.CoqList(os_, "(str * list (N * fval))"))
+}
+
 // ---------------- output ----------------
 
 func coqStrs(xs []string) string {
@@ -619,6 +801,7 @@ type RegexInput struct {
 type replayIn struct {
 	Bus   *BusInput   `json:"bus"`
 	Regex *RegexInput `json:"regex"`
+	Conc  *ConcInput  `json:"conc"`
 }
 
 func main() {
@@ -633,6 +816,7 @@ func main() {
 
 	var buses []BusInput
 	var regexes []RegexInput
+	var concs []ConcInput
 	if o.Only != "" {
 		var ri replayIn
 		if err := hx.LoadReplay(o.Only, &ri); err != nil {
@@ -643,6 +827,9 @@ func main() {
 		}
 		if ri.Regex != nil {
 			regexes = []RegexInput{*ri.Regex}
+		}
+		if ri.Conc != nil {
+			concs = []ConcInput{*ri.Conc}
 		}
 	} else {
 		buses = append(buses, corpus()...)
@@ -655,6 +842,18 @@ func main() {
 		}
 		for i := 0; i < nb; i++ {
 			buses = append(buses, genBus(r, dist))
+		}
+		nc := 30
+		switch o.Tier {
+		case "thorough":
+			nc = 300
+		case "search":
+			nc = 100
+		}
+		rc := hx.NewRand(o.Seed + 7919) // own stream: the bus/regex cases stay what they were
+		concs = append(concs, concCorpus()...)
+		for i := 0; i < nc; i++ {
+			concs = append(concs, genConc(rc, dist))
 		}
 		// regex cases: every pool expression and nx random ones against pool + random subjects
 		var res []*Re
@@ -698,6 +897,13 @@ func main() {
 		in2 := in
 		cases = append(cases, hx.Case{ID: id, Kind: "bus", Input: map[string]interface{}{"bus": in2}, Obs: ob, Crash: crash,
 			Coq: coqBus(id, in, ob)})
+		id++
+	}
+	for _, in := range concs {
+		ob, crash := runConc(in, o.Out)
+		in2 := in
+		cases = append(cases, hx.Case{ID: id, Kind: "conc", Input: map[string]interface{}{"conc": in2}, Obs: ob, Crash: crash,
+			Coq: coqConc(id, in, ob)})
 		id++
 	}
 	for _, x := range regexes {
